@@ -114,7 +114,8 @@ type Sim struct {
 	last    string
 	freeRun bool
 
-	notify chan struct{}
+	notify  chan struct{}
+	rootGID uint64
 
 	steps       atomic.Int64
 	nextPreempt atomic.Int64
@@ -160,6 +161,7 @@ func New(cfg Config) *Sim {
 		ordinal: map[string]int{},
 		notify:  make(chan struct{}, 1),
 		hash:    14695981039346656037,
+		rootGID: goid(),
 	}
 	sort.Ints(s.cfg.Preempts)
 	s.armPreempt()
@@ -235,7 +237,11 @@ func Logf(format string, args ...any) {
 func (s *Sim) Hash() uint64 { s.mu.Lock(); defer s.mu.Unlock(); return s.hash }
 
 // Log returns the retained event log.
-func (s *Sim) Log() []string { s.mu.Lock(); defer s.mu.Unlock(); return append([]string(nil), s.log...) }
+func (s *Sim) Log() []string {
+	s.mu.Lock()
+	defer s.mu.Unlock()
+	return append([]string(nil), s.log...)
+}
 
 // Aborted reports why the run was aborted ("" if it was not).
 func (s *Sim) Aborted() string {
@@ -268,6 +274,9 @@ func (s *Sim) registerLocked(gid uint64, base string, main bool) *task {
 
 // park makes the calling task a scheduling candidate and blocks until chosen.
 func (s *Sim) park(t *task, site string) {
+	if t == nil {
+		return
+	}
 	s.mu.Lock()
 	if s.freeRun {
 		s.mu.Unlock()
@@ -287,6 +296,9 @@ func (s *Sim) park(t *task, site string) {
 
 func (s *Sim) me(autoBase string) *task {
 	g := goid()
+	if g == s.rootGID {
+		return nil // the scheduler's own goroutine never parks
+	}
 	s.mu.Lock()
 	t := s.tasks[g]
 	if t == nil {
@@ -443,6 +455,8 @@ func Step(site string) {
 	if s == nil {
 		if mode.Load() == ModeRace {
 			perturb()
+		} else if budgetOn.Load() {
+			budgetStep()
 		}
 		return
 	}
@@ -491,6 +505,9 @@ func Branch(site string) {
 		return
 	}
 	t := s.me(site)
+	if t == nil {
+		return
+	}
 	s.Logf("branch %s %s", t.id, site)
 	s.park(t, site)
 }
@@ -502,6 +519,9 @@ func GoStart(site string) {
 		return
 	}
 	g := goid()
+	if g == s.rootGID {
+		return
+	}
 	s.mu.Lock()
 	t := s.tasks[g]
 	if t == nil {
@@ -562,3 +582,44 @@ func TaskID() string {
 
 // GoID returns the runtime id of the calling goroutine.
 func GoID() uint64 { return goid() }
+
+// ---- step budget for plain (unscheduled, bubble-free) runs --------------------
+
+var (
+	budgetOn  atomic.Bool
+	budgetRem atomic.Int64
+	budgetMu  sync.Mutex
+	budgetCh  chan struct{}
+)
+
+// SetStepBudget arms a budget of n Step calls for code running without a
+// scheduler (ModeOff). When it is exhausted the returned channel is closed and
+// every goroutine that calls Step afterwards blocks forever: a loop that never
+// terminates is turned into a parked goroutine instead of a spinning one.
+func SetStepBudget(n int64) <-chan struct{} {
+	budgetMu.Lock()
+	defer budgetMu.Unlock()
+	budgetCh = make(chan struct{})
+	budgetRem.Store(n)
+	budgetOn.Store(true)
+	return budgetCh
+}
+
+// ClearStepBudget disarms the budget.
+func ClearStepBudget() { budgetOn.Store(false) }
+
+// StepsLeft returns the remaining budget.
+func StepsLeft() int64 { return budgetRem.Load() }
+
+func budgetStep() {
+	r := budgetRem.Add(-1)
+	if r > 0 {
+		return
+	}
+	if r == 0 {
+		budgetMu.Lock()
+		close(budgetCh)
+		budgetMu.Unlock()
+	}
+	select {}
+}
